@@ -36,13 +36,84 @@ impl Config {
     }
 
     /// Iterate over available asset names.
+    #[cfg(not(anything_verif))]
     pub fn assets(&self) -> impl Iterator<Item = Cow<'static, str>> {
         Asset::iter()
     }
 
     /// Get content for the given asset.
+    #[cfg(not(anything_verif))]
     pub fn get_asset(&self, name: &str) -> Option<EmbeddedFile> {
         Asset::get(name)
+    }
+
+    /// Hash all available assets so we can determine if we need to rebuild or not.
+    #[cfg(not(anything_verif))]
+    pub fn hash_assets(&self) -> String {
+        use std::hash::Hasher;
+        use twox_hash::xxh3::HasherExt;
+
+        const SEED: u64 = 0x9a7f42b11904b426;
+
+        let mut hash = twox_hash::xxh3::Hash128::with_seed(SEED);
+
+        hash.write_usize(self.this_version.len());
+        hash.write(self.this_version.as_bytes());
+
+        for name in Asset::iter() {
+            if let Some(content) = Asset::get(name.as_ref()) {
+                let name = name.as_ref().as_bytes();
+
+                hash.write_usize(name.len());
+                hash.write(name);
+                hash.write_usize(content.data.len());
+                hash.write(&content.metadata.sha256_hash()[..]);
+            }
+        }
+
+        format!("{:x}", hash.finish_ext())
+    }
+}
+
+/// Verification seam (`--cfg anything_verif` only): when
+/// `ANYTHING_VERIF_ASSET_DIR` is set, the data files are read from that
+/// directory (sorted by file name, like the embedded folder) instead of the
+/// embedded `db` folder. Everything else is unchanged.
+#[cfg(anything_verif)]
+impl Config {
+    fn verif_asset_dir() -> Option<PathBuf> {
+        std::env::var_os("ANYTHING_VERIF_ASSET_DIR").map(PathBuf::from)
+    }
+
+    /// Iterate over available asset names.
+    pub fn assets(&self) -> impl Iterator<Item = Cow<'static, str>> {
+        let names: Vec<Cow<'static, str>> = match Self::verif_asset_dir() {
+            Some(dir) => {
+                let mut names = Vec::new();
+
+                if let Ok(entries) = fs::read_dir(dir) {
+                    for entry in entries.flatten() {
+                        if let Some(name) = entry.file_name().to_str() {
+                            names.push(name.to_owned());
+                        }
+                    }
+                }
+
+                names.sort();
+                names.into_iter().map(Cow::Owned).collect()
+            }
+            None => Asset::iter().collect(),
+        };
+
+        names.into_iter()
+    }
+
+    /// Get content for the given asset.
+    pub fn get_asset(&self, name: &str) -> Option<EmbeddedFile> {
+        match Self::verif_asset_dir() {
+            Some(dir) => rust_embed::utils::read_file_from_fs(&dir.join(name)).ok(),
+            None => Asset::get(name),
+        }
     }
 
     /// Hash all available assets so we can determine if we need to rebuild or not.
@@ -57,8 +128,8 @@ impl Config {
         hash.write_usize(self.this_version.len());
         hash.write(self.this_version.as_bytes());
 
-        for name in Asset::iter() {
-            if let Some(content) = Asset::get(name.as_ref()) {
+        for name in self.assets() {
+            if let Some(content) = self.get_asset(name.as_ref()) {
                 let name = name.as_ref().as_bytes();
 
                 hash.write_usize(name.len());
